@@ -601,6 +601,49 @@ func (n *Node) Retrieve() {
 	n.drain()
 }
 
+// RetrieveWithBacklog is Retrieve at a moment when the sync loop is so far behind that its header and data input
+// channels are full (a long catch-up): the channels are filled with copies of `filler` events first (the sync loop
+// would drop them as already seen), the scan runs until it waits for room, and only then is room made. What the scan
+// found meanwhile must still arrive. The filler events are discarded.
+func (n *Node) RetrieveWithBacklog(hFill block.NewHeaderEvent, dFill block.NewDataEvent) {
+	hc, dc := n.M.VerifHeaderInCh(), n.M.VerifDataInCh()
+	nh, nd := 0, 0
+	for len(hc) < cap(hc) {
+		hc <- hFill
+		nh++
+	}
+	for len(dc) < cap(dc) {
+		dc <- dFill
+		nd++
+	}
+	n.M.VerifSignalRetrieve()
+	n.runLoop("retrieve", func(ctx context.Context, _ chan<- error) { n.M.RetrieveLoop(ctx) }, func() bool {
+		// the scan is waiting (for room, for a signal or for simulated time): make room once, then let it settle
+		made := false
+		for ; nh > 0; nh-- {
+			<-hc
+			made = true
+		}
+		for ; nd > 0; nd-- {
+			<-dc
+			made = true
+		}
+		if made {
+			return true
+		}
+		before := n.DAOf().NumCalls()
+		time.Sleep(110 * time.Millisecond)
+		synctest.Wait()
+		for i := 0; i < 120 && n.DAOf().InFlight() > 0; i++ {
+			// a fetch is hanging inside the DA layer: wait for the loop's own fetch timeout
+			time.Sleep(time.Second)
+			synctest.Wait()
+		}
+		return n.DAOf().NumCalls() != before
+	})
+	n.drain()
+}
+
 // PollP2P signals the P2P store loops like the block ticker does.
 func (n *Node) PollP2P() {
 	n.M.VerifSignalHeaderStore()
